@@ -219,47 +219,34 @@ def run_rules(ctx, chk):
         if b.name == 'new' and (b.impl_self or '').endswith('ShmWriter'):
             allowed[b.path] = {'vstore'}
     n_sites = 0
-    seen_sites = set()
-    has_store = {b.path for b in fb.bodies(common.SHM) if b.defkind != 'Closure' and any(
-        fn and (mir.callee_name(fn) in DATA_WRITES or atomic_kind(mir.callee_name(fn)) in ATOMIC_WRITES) for bb, t, fn in common.user_calls(b))}
-    for b in fb.bodies(common.SHM):
+    from .seqlock_model import mapping_store_sites
+    shm_bodies = [b for b in fb.bodies(common.SHM)]
+    for b in shm_bodies:
         if b.defkind == 'Closure':
             continue
-        has = [1 for bb, t, fn in common.user_calls(b) if fn and (mir.callee_name(fn) in DATA_WRITES or atomic_kind(mir.callee_name(fn)) in ATOMIC_WRITES)]
-        direct = []
         for i, blk in enumerate(b.blocks):
             for s in blk['stmts']:
                 if s['k'] == 'assign' and any(e['k'] == 'deref' for e in s['p']['proj']):
                     t0 = b.local_ty(s['p']['l'])
                     if t0.get('k') == 'ptr':
-                        direct.append(i)
-        if not has and not direct:
+                        chk.saw(b)
+                        chk.ob('C02.S4', 'raw-place-store:%s' % b.path.split('::')[-1], False, b.where(i), 'direct store through a raw pointer')
+    # every store is classified where its pointer's provenance is known (a helper storing through its own parameter is
+    # classified in the functions it is inlined into) and attributed to the function whose body contains the call site
+    for kind, site, owner, ev in mapping_store_sites(fb, shm_bodies):
+        ob_ = fb.body(owner)
+        if ob_ is not None:
+            chk.saw(ob_)
+        n_sites += 1
+        if kind == 'dwrite' and ev.field not in ('ceb', 'generation', 'version', 'mapping'):
+            # a write through a pointer that is not one of the mapping pointers (e.g. MaybeUninit buffers)
             continue
-        chk.saw(b)
-        # helpers are inlined so that a pointer handed out by one (a `locate_fields`-style function) keeps its
-        # provenance; each store is attributed to the function whose body contains the call site
-        from .startup_model import is_reader_new, init_reader_open
-        init_reader_open(fb)
-        eng = common.mk_engine(fb, inline_depth=8, no_inline=is_reader_new)
-        for p in eng.run(b):
-            for e in classify_effects(p):
-                owner = e.ef['site'][0]
-                if e.kind in ('gstore', 'vstore', 'astore', 'dwrite') and (e.kind, e.site) not in seen_sites:
-                    if owner != b.path and fb.body(owner) is not None and fb.body(owner).defkind != 'Closure' and owner in has_store:
-                        continue        # analysed with its own function as the root
-                    seen_sites.add((e.kind, e.site))
-                    n_sites += 1
-                    if e.kind == 'dwrite' and e.field not in ('ceb', 'generation', 'version', 'mapping'):
-                        # a write through a pointer that is not one of the mapping pointers (e.g. MaybeUninit buffers)
-                        continue
-                    roots = {r for r, kinds in allowed.items() if e.kind in kinds}
-                    fn_owner = owner.split('::{closure')[0]
-                    ok = common.only_reached_from(fb, fn_owner, roots)
-                    chk.ob('C02.S4', 'mapping-write:%s:%s' % (fn_owner.split('::')[-1], e.kind), ok, e.site,
-                           '%s writes into the mapping (%s)%s' % (fn_owner, e.kind, '' if ok else
-                                                                 ' -- only write(), ShmWriter::new() and helpers called from nowhere else may'))
-        for i in direct:
-            chk.ob('C02.S4', 'raw-place-store:%s' % b.path.split('::')[-1], False, b.where(i), 'direct store through a raw pointer')
+        roots = {r for r, kinds in allowed.items() if kind in kinds}
+        fn_owner = owner.split('::{closure')[0]
+        ok = common.only_reached_from(fb, fn_owner, roots)
+        chk.ob('C02.S4', 'mapping-write:%s:%s' % (fn_owner.split('::')[-1], kind), ok, site,
+               '%s writes into the mapping (%s)%s' % (fn_owner, kind, '' if ok else
+                                                     ' -- only write(), ShmWriter::new() and helpers called from nowhere else may'))
     chk.floor('C02.S4', 'mapping write sites', n_sites, 3)
     # no store-like access at all in the client crates
     for crate in (common.CLIENT, common.FFI):
